@@ -118,6 +118,8 @@ struct XParse : Engine {
                 }
                 emit(s);
             }
+            // long runs of number characters that contain no convertible number (must be rejected without leaving anything behind)
+            for (int len : { 5, 62, 63, 64, 65, 70, 130 }) for (const char* pre : { "--", "-e", "-.e", "-+", "-.", "-E-" }) for (int ctx = 0; ctx < 3; ctx++) { std::string b = std::string(pre) + std::string((size_t)len, '7'); emit(ctx == 0 ? b : ctx == 1 ? "[" + b + "]" : "{\"k\":" + b + "}"); }
             // literals that overflow / underflow in strtod (they set errno = ERANGE; nothing may depend on that later)
             for (const char* v : { "1e999", "-1e999", "[1e400]", "1e-999", "[2.5e-310]", "{\"n\":4.9406564584124654e-324}", "123456789e300", "0.1e-320" }) { emit(v); emit(std::string(v) + " "); emit("[1,2.5,\"after\"]"); }
             // BOM followed by 0..2 alphabet bytes, doubled BOM, BOM inside
